@@ -68,8 +68,12 @@ def write_replay(prop, failure):
 
 
 def write_evidence(prop, ev):
-    os.makedirs(EVIDENCE_DIR, exist_ok=True)
-    path = os.path.join(EVIDENCE_DIR, f"{prop}.json")
+    # evidence/<id>.json describes runs against /repo itself; a run against a scratch copy (CORANKCO_REPO: seeded or
+    # behaviour-preserving patches on a worktree) writes its record next to the caches instead
+    target = EVIDENCE_DIR if os.path.realpath(REPO) == "/repo" else os.path.join(CACHE_DIR, "scratch_evidence")
+    os.makedirs(target, exist_ok=True)
+    ev["repo_under_check"] = REPO
+    path = os.path.join(target, f"{prop}.json")
     with open(path, "w") as f:
         json.dump(ev, f, indent=1, default=str)
     return path
